@@ -655,7 +655,7 @@ func (c16) Run(c *fw.Ctx) {
 			if want[ai] == nil {
 				continue
 			}
-			if msg := seriesEqual(d[ai], want[ai]); msg != "" {
+			if msg := seriesEqualNumeric(d[ai], want[ai]); msg != "" {
 				det["detail"] = msg
 				c.Violationf("silent-success:sumcopy-effect", det, "sum-copy exited 0 but archive %d of the destination is not the sum: %s", ai, msg)
 				return
